@@ -714,22 +714,3 @@ func eqRelNe(a, b string) string {
 	}
 	return a + " != " + b
 }
-
-// pathWithin: is b reachable from a without passing through `stop`?
-func pathWithin(a, b, stop *ssa.BasicBlock) bool {
-	seen := map[*ssa.BasicBlock]bool{}
-	q := append([]*ssa.BasicBlock{}, a.Succs...)
-	for len(q) > 0 {
-		x := q[0]
-		q = q[1:]
-		if seen[x] || x == stop {
-			continue
-		}
-		seen[x] = true
-		if x == b {
-			return true
-		}
-		q = append(q, x.Succs...)
-	}
-	return false
-}
